@@ -32,6 +32,9 @@ claim("C10", "model_checking", "Per-subscriber Notify steps, ghost notification 
 claim("C03", "model_checking", "The oracles (Opt over all dispatch histories, lower bounds) are model-checked on the spec; CP-SAT itself is a black box whose results on TLC-family and random non-flexible instances (fresh / reused solver object / 1 ns limit) are judged by the TLA+ monitor against those oracles.", N_D + " OR-Tools is not modelled.", T_D, "5/C03")
 claim("C04", "model_checking", "RuleSolver.tla: the solver loop over the instance family x rules x filters always has a best available operation, one operation per step, direct = observer-based MWKR; the real solver is stepped from TLC-chosen prefixes and every rule / score composition is asked in every visited state and compared with BestUnder / LexBest / ScoreVector.", N_D, T_D, "5/C04")
 claim("C08", "model_checking", "OptCheck.tla: TLC exhausts both dispatch trees (all histories vs histories through the dominated-operations filter) for every instance of the family and compares the minima; the real Dispatcher+filter tree is walked and its leaf makespans compared with Opt(instance) by the monitor.", N_D, T_D, "5/C08")
+claim("C11", "model_checking", "Observers.tla holds the implementation-shaped observer records next to the definitional FeatTrue; FeatureModel.tla is model-checked per observer class and deviation direction (the two recorded findings are reproduced by TLC as their own invariants); every feature of every real observer after every dispatch is compared with FeatTrue by the monitor, deviations labelled as-modelled/unexplained.", N_D, T_D, "5/C11")
+claim("C12", "model_checking", "FeatureModel.tla: Reset then ResetAll in subscription order equals fresh construction for every creation order of the dependent observers (the naive protocol is refuted by TLC as a design mutant); real resets at TLC-chosen points compared with the state logged after construction and with the same calls on fresh objects.", N_D, T_D, "5/C12")
+claim("C13", "model_checking", "Reward lists as observer records; sum = -makespan / -idle time and one non-positive reward per dispatch as invariants and as monitor predicates on every logged state.", N_D, T_D, "5/C13")
 
 
 def build(registered):
